@@ -4,7 +4,7 @@
    size are updated by the compare-and-swap loop of Model/Metrics.v (cas_prog with max_skip / min_skip) — not by
    load-compare-store —, time stamps are only stored, and no statement was left untranslated. *)
 From Coq Require Import List ZArith NArith Bool Lia.
-From GV Require Import Model.Metrics Gen.MetricsProg.
+From GV Require Import Model.Metrics Gen.MetricsProg Model.Footprint Gen.Globals.
 Import ListNotations.
 
 Lemma metrics_progs_ok : forallb (prog_ok metrics_roles) metrics_progs = true.
@@ -48,3 +48,10 @@ Proof.
   intros d n e rest. cbv [start contrib_total t_secs t_args]. cbn.
   unfold nthZ; cbn. destruct (e =? 0); cbn; repeat split; lia.
 Qed.
+
+(* footprint: every pair of access sites of the regenerated table that touch the same cell, one of them writing,
+   is ordered by initialisation, by a common mutex (one side holding it for writing), by a sync.Once, or consists of
+   two operations of synchronisation primitives (sync/atomic, sync.Pool, sync.Once, sync.Map, mutexes) — except on
+   the cells listed as known findings *)
+Lemma globals_ok : table_ok known_cells sites = true.
+Proof. vm_compute. reflexivity. Qed.
